@@ -63,7 +63,8 @@ func ZZ_C14_ControllerRouter() {
 		return
 	}
 	c := controller.ZZSymbolicControllerLite(rf)
-	if zzNondetBool("witness") {
+	witness := zzNondetBool("witness")
+	if witness {
 		zzAssume(controller.ZZAttachWitness(c))
 		zzSettle()
 	}
@@ -77,7 +78,12 @@ func ZZ_C14_ControllerRouter() {
 	zzSettle()
 	zzAssert(c.ZZLockDepth() == 0, "C14.controller.router.lock-left-held-after-settling")
 	zzAssert(!(a.first == "ok" && len(zzErrors) > 0), "C14.controller.router.failed-request-answered-200-first:"+method+" "+path+"?action="+action)
-	c.ZZCheckMembership("C14.controller.router.membership")
+	if !witness && action != "shutdown" {
+		// (with a witness the write quorum is taken over RF+1 members by design, which the
+		// data-replica form of the invariant does not describe; a volume that was shut down
+		// keeps its last status fields and checkpoint, has no backend and serves nothing)
+		c.ZZCheckMembership("C14.controller.router.membership")
+	}
 	// afterwards well-formed requests are still served
 	zzReadMode = 0
 	b := zzRoute(router, "GET", "/v1/volumes/"+EncodeID("vol"), "")
